@@ -42,7 +42,7 @@ class Reg:
         return [self.id(r) for r in rows]
 
 
-def _ranks(vals):
+def _ranks(vals, TOL=TOL):
     """dense ranks of real values, near-ties (relative gap < TOL) share a rank"""
     vals = np.asarray(vals, dtype=np.float64)
     order = np.argsort(vals, kind="stable")
@@ -50,7 +50,7 @@ def _ranks(vals):
     ranks = np.zeros(len(vals), dtype=int)
     r = 1
     for k, idx in enumerate(order):
-        if k > 0 and vals[idx] - vals[order[k - 1]] > TOL * scale:
+        if k > 0 and vals[idx] - vals[order[k - 1]] > TOL * scale and vals[idx] != vals[order[k - 1]]:
             r += 1
         ranks[idx] = r
     return [int(v) for v in ranks], (len(set(ranks.tolist())) == len(vals))
@@ -216,7 +216,22 @@ def run_case(cfg):
     g, loss, params, axes, rexact, (lo, hi) = _build(cfg)
     if cfg.get("mode") == "solve":
         return _run_solve(cfg, g, loss, params, axes, rexact, lo, hi)
-    tr = dict(cfg=cfg, kind=kind, start=cfg["start"], every=cfg["every"], hasDraw=True, fresh=True, retOK=True, skipped="", exc="", axes=[], ev=[])
+    tr = dict(cfg=cfg, kind=kind, start=cfg["start"], every=cfg["every"], hasDraw=True, fresh=True, retOK=True, skipped="", exc="", steps0=0,
+              axes=[], ev=[])
+    g, rt, rf = init_rar(g)
+    if cfg.get("resume"):
+        # an earlier training call of cfg["resume"] iterations; the recorded history is the NEXT call on the returned generator
+        try:
+            for i in range(cfg["resume"]):
+                g, _batch = g.get_batch()
+                _, _, g = trigger_rar(i, loss, params, g, rt, rf)
+            jax.effects_barrier()
+            g, rt, rf = init_rar(g)
+        except Exception as ex:  # noqa
+            tr["codeexc"] = f"{type(ex).__name__}: {str(ex)[:160]}"
+            return tr
+        tr["fresh"] = False
+        tr["steps0"] = int(g.rar_iter_nb)
     regs = []
     for ax in axes:
         arr, p, cur = _axis_arrays(g, ax["name"])
@@ -224,7 +239,6 @@ def run_case(cfg):
         init = [reg.add(r) for r in arr]
         regs.append(reg)
         tr["axes"].append(dict(ax, init=init, cur0=cur, mask0=[bool(v != 0) for v in p]))
-    g, rt, rf = init_rar(g)
     _verif.drain()
     for i in range(cfg["iters"]):
         g, _batch = g.get_batch()
@@ -288,7 +302,16 @@ def _run_solve(cfg, g, loss, params, axes, rexact, lo, hi):
     from jinns import _verif
 
     kind = cfg["kind"]
-    tr = dict(cfg=cfg, kind=kind, start=cfg["start"], every=cfg["every"], hasDraw=True, fresh=False, retOK=True, skipped="", exc="", axes=[], ev=[])
+    tr = dict(cfg=cfg, kind=kind, start=cfg["start"], every=cfg["every"], hasDraw=True, fresh=False, retOK=True, skipped="", exc="", steps0=0,
+              axes=[], ev=[])
+    if cfg.get("resume"):
+        try:
+            g = jinns.solve(n_iter=cfg["resume"], init_params=params, data=g, loss=loss, optimizer=optax.sgd(0.0), verbose=False)[3]
+            jax.effects_barrier()
+        except Exception as ex:  # noqa
+            tr["codeexc"] = f"{type(ex).__name__}: {str(ex)[:160]}"
+            return tr
+        tr["steps0"] = int(g.rar_iter_nb)
     regs = []
     for ax in axes:
         arr, p, cur = _axis_arrays(g, ax["name"])
@@ -313,7 +336,7 @@ def _run_solve(cfg, g, loss, params, axes, rexact, lo, hi):
         tr["axes"].append(dict(ax, init=regs[a].ids(arr), cur0=cur, mask0=[bool(v != 0) for v in p]))
     k = 0
     evs = [e for e in evs if e["kind"] != "solve_init"]
-    nb_prev = 0
+    nb_prev = tr["steps0"]
     while k < len(evs):
         if evs[k]["kind"] != "solve_draw":
             tr["exc"] = f"unexpected hook order at {k}: {evs[k]['kind']}"
